@@ -127,6 +127,13 @@ check("quoted path element", fixed_words('select v:"aB".c from t'), ['"aB"', "c"
 check("object constant colon is no path", fold_words("select {'a': k} from t"), ["select", "k", "from", "t"])
 check("array constant", fold_words("select [k, 1] from t"), ["select", "k", "from", "t"])
 check("keyword as path element", fixed_words("select v:value.select from t"), ["value", "select"])
+# every occurrence of an identifier is its own token: definition and reference are re-spelled independently
+toksc = R.lex("with ~totals as (select 1 as ~a) select ~a from ~totals")
+singles = [R.render(toksc, f) for lab, f in R.spellings(toksc, "quick") if lab.startswith("one:u")]
+check("definition flipped alone", "with TOTALS as (select 1 as a) select a from totals" in singles, True)
+check("reference flipped alone", "with totals as (select 1 as a) select a from TOTALS" in singles, True)
+check("quoting one occurrence", 'with totals as (select 1 as a) select a from "TOTALS"' in
+      [R.render(toksc, f, qs) for _l, f, qs in R.quotings(toksc, "quick")], True)
 # reassembly and marks
 tpl = "select ~k, \"cA\" from ~db1.~s1.~t  where ~k = 'x' -- end"
 toks = R.lex(tpl)
@@ -223,6 +230,13 @@ check("use database", (c.cur_db, c.cur_schema), ("DB1", R.UNKNOWN))
 raises("needs a schema", lambda: c.apply(("table", "q", ["a"])), ValueError)
 c.apply(("dropdatabase", "DB1"))
 check("drop current database", (c.cur_db, c.cur_schema, c.databases()), (None, None, ["DB2"]))
+c = R.Catalog("db1", "s1").apply(("session", None, None))
+check("second connection without arguments", (c.cur_db, c.cur_schema, c.databases()), (None, None, ["DB1"]))
+raises("unqualified name without context", lambda: c.apply(("table", "q", ["a"])), ValueError)
+c.apply(("table", "db1.s1.q", ["a"])).apply(("use_schema", 'db1."lower_s"'))
+check("quoted lower-case schema is current verbatim", (c.cur_db, c.cur_schema, "lower_s" in c.verbatim), ("DB1", "lower_s", True))
+c.apply(("use_database", '"MixedDb"'))
+check("quoted mixed-case database is current verbatim", (c.cur_db, c.cur_schema), ("MixedDb", R.UNKNOWN))
 # judge
 exp, verb = {"T", "qT", "VW"}, {"qT"}
 check("judge exact", R.judge_name("T", exp, verb), "exact")
@@ -293,6 +307,47 @@ check("status lower", [x[2] for x in c02.own_result_findings(c02.TPL["create_tab
 st3 = dict(st, rows=(("'Table MIXED successfully created.'",),))
 check("status of quoted name folded", [(x[1], x[2]) for x in c02.own_result_findings(c02.TPL["create_table_q"], st3)],
       [("kind=case,name=quoted,stmt=CREATE TABLE", True)])
+
+# session flavours
+check("flavours", sorted(c02.SESSIONS), ["full", "nodb", "noschema", "q", "qd", "qs"])
+check("flavours used", {t.session for t in c02.TEMPLATES}, set(c02.SESSIONS))
+m = c02.model_after(None, session="nodb")
+check("nodb context", (m.cur_db, m.cur_schema), (None, None))
+m = c02.model_after(None, session="noschema")
+check("noschema context", (m.cur_db, m.cur_schema), ("DB1", R.UNKNOWN))
+m = c02.model_after(None, session="qs")
+check("qs context", (m.cur_db, m.cur_schema), ("DB1", "lower_s"))
+check("qs objects", [(o[2], o[4]) for o in m.objects() if o[1] == "lower_s"],
+      [("T5", ["ID", "mIx"]), ("mt", ["cc", "Dd"]), ("vV", ["cc"])])
+m = c02.model_after(None, session="qd")
+check("qd context", (m.cur_db, m.cur_schema, m.databases()), ("MixedDb", "sX", ["DB1", "DB2", "MixedDb"]))
+m = c02.model_after(c02.TPL["qs_create_table"])
+check("unqualified create resolves in the quoted schema", m.dbs["DB1"]["lower_s"]["T6"], ("table", ["A"]))
+m = c02.model_after(c02.TPL["q_alter_rename"])
+check("quoted rename", sorted(m.dbs["DB1"]["lower_s"]), ["Mt2", "T5", "vV"])
+# names a DESCRIBE / SHOW template must list, and conn.database / conn.schema after every execution
+d = {"status": ("ok", None), "names": (("name", "type"), ("name", "type")), "rowcount": 2,
+     "rows": (("'ID'", "'NUMBER(38,0)'"), ("'mIx'", "'VARCHAR(7)'")), "context": ("DB1", "lower_s", ("DB1", "lower_s"))}
+check("has ok", [(x[0], x[2]) for x in c02.own_result_findings(c02.TPL["qs_describe"], d)],
+      [("result", False), ("result", False), ("conn", False), ("conn", False)])
+d2 = dict(d, rows=(("'ID'", "'NUMBER(38,0)'"), ("'MIX'", "'VARCHAR(7)'")))
+check("has: quoted name folded", [(x[1], x[2]) for x in c02.own_result_findings(c02.TPL["qs_describe"], d2)][:2],
+      [("kind=case,name=unquoted,stmt=DESCRIBE,session=qs", False), ("kind=case,name=quoted,stmt=DESCRIBE,session=qs", True)])
+d3 = dict(d, names=(None, ("name", "type")), rows=(), rowcount=0)
+check("has: nothing listed", [(x[1], x[2]) for x in c02.own_result_findings(c02.TPL["qs_describe"], d3)][:2],
+      [("kind=missing,name=unquoted,stmt=DESCRIBE,session=qs", True), ("kind=missing,name=quoted,stmt=DESCRIBE,session=qs", True)])
+d4 = dict(d, context=("DB1", "LOWER_S", ("DB1", "lower_s")))
+check("conn: quoted current schema folded", [(x[1], x[2]) for x in c02.own_result_findings(c02.TPL["qs_describe"], d4)][2:],
+      [("kind=case,name=unquoted,attr=database,session=qs", False), ("kind=case,name=quoted,attr=schema,session=qs", True)])
+d5 = dict(d, context=("DB1", None, ("DB1", "main")))
+check("conn: no current schema is not a case matter", [x[1] for x in c02.own_result_findings(c02.TPL["qs_describe"], d5)][2:],
+      ["kind=case,name=unquoted,attr=database,session=qs"])
+# sweeps planned
+check("quick sweeps: state-changing", c02.sweep_labels(c02.TPL["q_use_schema"], "quick"), ("all:u",))
+check("quick sweeps: read-only", (c02.sweep_labels(c02.TPL["sel_join"], "quick"), c02.sweep_labels(c02.TPL["qd_select"], "quick")), ((), ("all:u",)))
+check("quick sweeps: one read-only template per flavour",
+      sorted(c02.TPL[t].session for t in c02.QUICK_SHARED_SWEEPS), sorted(c02.SESSIONS))
+check("thorough sweeps", (c02.sweep_labels(c02.TPL["sel_join"], "thorough"), c02.sweep_labels(c02.TPL["upd"], "thorough")), (("all:u",), c02.CANONICAL))
 
 # facets and classifier
 ref = {f: 0 for f in c02.FACETS}
